@@ -117,7 +117,7 @@ static int real_rank_main(int argc, char **argv, const TGraph &t, const std::str
 #else
 static Verdict run_case(const TGraph &t, const std::string &algo, int P, int lay, uint64_t seed, const McbOracle &opt, std::string &layouts_json) {
     boost::mpi::vp_world world(P);
-    world.seed = seed; world.watchdog_ms = 15000;
+    world.seed = seed; world.watchdog_ms = 60000;
     std::vector<RankResult> res(P);
     std::vector<std::thread> th;
     static std::atomic<int> rid_counter{0};
